@@ -414,8 +414,10 @@ pub fn gen_table_plan(rng: &mut Prng, property: &str, thorough: bool) -> TablePl
             let keep = rng.below(names.len() + 1);
             names.truncate(keep);
         }
-        for u in ["zz_api", "unused'"] {
-            if rng.chance(1, 5) && !text_names.iter().any(|n| n == u) {
+        // unused entries; an API ordering may also carry a symbol whose name is a reserved word of
+        // the formula language (the text's keywords stay keywords)
+        for u in ["zz_api", "unused'", "true", "false", "and", "or", "in", "all", "nu", "not", "exists"] {
+            if rng.chance(1, 6) && !text_names.iter().any(|n| n == u) {
                 let pos = rng.below(names.len() + 1);
                 names.insert(pos, u.to_string());
             }
@@ -614,14 +616,7 @@ pub fn run_rsbdd(dir: &Path, inv: &Invocation) -> Spawned {
             let _ = si.write_all(o);
         }
     }
-    let out = child.wait_with_output().expect("wait failed");
-    use std::os::unix::process::ExitStatusExt;
-    Spawned {
-        status: out.status.code(),
-        signal: out.status.signal().is_some(),
-        stdout: out.stdout,
-        stderr: out.stderr,
-    }
+    super::rgsim::wait_watched(child)
 }
 
 fn viol(property: &str, oracle: &str, site: &str, detail: String) -> Violation {
@@ -1003,6 +998,14 @@ pub fn execute_table(p: &TablePlan) -> RunOutcome {
                         if r.status == Some(97) {
                             continue;
                         }
+                        // an answer must be the same answer; a tool that refuses to read an ordering from a
+                        // pipe, or to start in a removed directory, with a message reports an error
+                        let env_variant = matches!(var, Variant::Style(st) if st & 24 != 0);
+                        let refused = !r.signal && !matches!(r.status, Some(0) | Some(101) | None);
+                        if env_variant && refused && base.status == Some(0) {
+                            bump(&mut stats, "probe.environment-variant-refused");
+                            continue;
+                        }
                         if r.status != base.status || r.stdout != base.stdout {
                             vs.push(viol(
                                 prop,
@@ -1341,6 +1344,9 @@ pub enum FsFault {
     DotFull,
     TreeDirMissing,
     TreeFull,
+    /// the output path has no final file name component (`..`, `.`, `sub/..`, `/`): always a directory
+    DotNoFileName,
+    TreeNoFileName,
 }
 
 #[derive(Clone, Debug, PartialEq, Eq, Serialize, Deserialize)]
@@ -1401,9 +1407,22 @@ pub fn gen_robust_plan(rng: &mut Prng) -> RobustPlan {
             faults: vec![],
         };
     }
+    if !blow && !huge_b && rng.chance(1, 25) {
+        // boundary bias on the length of ONE identifier (the table printer pads columns to it)
+        let len = *rng.pick(&[254usize, 255, 256, 257, 4095, 4096, 65534, 65535, 65536]);
+        let (pre, post) = *rng.pick(&[("", ""), ("", " & b"), ("a | ", ""), ("-", "")]);
+        let name_len = len.saturating_sub(pre.len() + post.len()).max(1);
+        formula = StoredInput {
+            base_kind: "huge-identifier".into(),
+            base: format!("{pre}{}{post}", "n".repeat(name_len)).into_bytes(),
+            faults: vec![],
+        };
+    }
     let fs_fault = if rng.chance(1, 5) {
         Some(
             rng.pick(&[
+                FsFault::DotNoFileName,
+                FsFault::TreeNoFileName,
                 FsFault::InputMissing,
                 FsFault::InputIsDir,
                 FsFault::OrderingMissing,
@@ -1495,6 +1514,14 @@ pub fn execute_robust(p: &RobustPlan) -> RunOutcome {
         }
         Some(FsFault::TreeFull) => {
             tree_path = PathBuf::from("/dev/full");
+            want_tree = true;
+        }
+        Some(FsFault::DotNoFileName) => {
+            dot_path = no_file_name_path(&dir, bytes.len());
+            want_dot = true;
+        }
+        Some(FsFault::TreeNoFileName) => {
+            tree_path = no_file_name_path(&dir, bytes.len());
             want_tree = true;
         }
         _ => {}
@@ -1591,7 +1618,7 @@ pub fn execute_robust(p: &RobustPlan) -> RunOutcome {
             vs.push(viol("C12", "P2", &format!("{:?}", fault.as_ref().expect("fault")), format!("a missing / unreadable input path was not reported: exit {:?}", code)));
         }
         // output-side faults are only reached when parsing succeeded: exit 0 then means a swallowed error
-        if matches!(fault, Some(FsFault::DotDirMissing) | Some(FsFault::DotFull) | Some(FsFault::TreeDirMissing) | Some(FsFault::TreeFull)) && code == Some(0) {
+        if matches!(fault, Some(FsFault::DotDirMissing) | Some(FsFault::DotFull) | Some(FsFault::TreeDirMissing) | Some(FsFault::TreeFull) | Some(FsFault::DotNoFileName) | Some(FsFault::TreeNoFileName)) && code == Some(0) {
             // /dev/full accepts an empty write: a diagram export always writes at least the header, so this is an error
             vs.push(viol("C12", "P3", &format!("{:?}", fault.as_ref().expect("fault")), "an output file that cannot be created / written was not reported (exit 0)".into()));
         }
@@ -1957,4 +1984,18 @@ fn provably_non_convergent(bytes: &[u8]) -> bool {
         rsbdd::parser::ParsedFormula::new(&mut rd, None).ok().and_then(|pf| crate::model::fromsym::fixed_points_converge(&pf))
     });
     matches!(r, Caught::Ok(Some(false)))
+}
+
+
+/// An output path without a final file name component; which one is a function of the input length.
+fn no_file_name_path(dir: &Path, salt: usize) -> PathBuf {
+    match salt % 4 {
+        0 => PathBuf::from(".."),
+        1 => PathBuf::from("."),
+        2 => {
+            let _ = std::fs::create_dir_all(dir.join("sub"));
+            dir.join("sub/..")
+        }
+        _ => PathBuf::from("/"),
+    }
 }
